@@ -602,6 +602,12 @@ func runRecording(sc *scenario, tmp string) *epoch {
 		if m == nil {
 			return nil
 		}
+		if sc.Fault != nil && sc.Fault.Rewrite && id == sc.Fault.victim && pt.Stage == mx.StStart {
+			// group G: the window of the injected fault is the victim's first
+			// meta-data rewrite = its file-system calls between the start of its
+			// first and of its second attempt
+			sc.Fault.window(a == 1)
+		}
 		if sc.Gate && id == first && a == 2 {
 			switch pt.Stage {
 			case mx.StStart:
@@ -623,6 +629,9 @@ func runRecording(sc *scenario, tmp string) *epoch {
 
 	if sc.Fault != nil {
 		defer sc.Fault.disarm()
+	}
+	if sc.Fault != nil && sc.Fault.Rewrite {
+		sc.Fault.install(dir, sc.Fault.victim)
 	}
 	theRec.begin(dir, e.lg, sc.Sparse)
 	q, pan, err := e.newQueue(dir, sc.MaxTries, recordingParallelism)
